@@ -17,14 +17,14 @@ SHARDS = {"quick": 8, "thorough": 16}
 RULE = ("model-based histories against a model V3 device (configuration: max connection lifetime in {None, 30 s, 600 s}, which the application may set again to the same value at any point of the history; credentials, which begin with zero bytes, passed as bytes or as hex strings; the host's local time zone: UTC, or a zone whose daylight saving time ends or begins within the history); events "
         "from {send, send with the device silent, send answered by an error packet, send during which the peer closes, next "
         "connect refused, explicit authenticate with good credentials / bad token / bad key / while the device ignores handshakes / while the device refuses connections, a send whose handshake reply arrives damaged, sleep past 12 h, sleep past the "
-        "connection lifetime, short sleep, cancel the running send/authenticate at a protocol phase}; up to 30 (quick) / 60 "
+        "connection lifetime, short sleep, two sends outstanding at once (the first answered after 0.3..1.9 s), cancel the running send/authenticate at a protocol phase}; up to 30 (quick) / 60 "
         "(thorough) events. A monitor parses every byte the device receives on every connection with the reference codec: (1) "
         "before the first genuinely answered handshake on a connection only handshake requests carrying the token configured "
         "for that call; (2) every type-6 packet decrypts with a valid tag under the latest session key of its own connection "
         "that the client could complete (older key only after a handshake the client had to reject: counted as stale-session), "
         "never under another connection's key, never undecodable; (3) counters start at 0, advance by one, wrap to 0 only from "
         "2^k-1 with one k <= 16 per process; (4) no data packet more than 12 h after the last genuine handshake of its "
-        "connection or (when configured) more than the lifetime after its connection was opened (slack: one exchange). Long "
+        "connection or (when configured) more than the lifetime after its connection was opened (slack: one exchange; the first transmission of a request that the library held back for more than 0.3 s without a handshake of its own must still find the session valid). Long "
         "sessions: >= 4200 (quick) / 66000 (thorough) exchanges on one connection (also followed by the 12 h re-authentication on that connection) and 70000 protocol-level writes. "
         "Non-trivial: the history contains a fault or expiry followed by a successful data exchange. Distinct by (config, events).")
 ASSUMPTIONS = ["every history starts with an explicit authenticate call (successful or not): that call is what marks the device as V3 for the library",
@@ -39,13 +39,22 @@ BAD_KEY = hashlib.sha256(b"c07 bad key").digest()
 FRAME = bytes.fromhex("aa21ac8d000000000003418100ff03ff000200000000000000000000000003016971")
 H12 = 12 * 3600
 SLACK = 16.0
+_BODY = rc.frame_parse(FRAME).body[:-1]
 
 
-def monitor(dev, hs_notes: dict, lifetime, uncompletable: set):
-    """Returns None or (bucket, detail).  hs_notes: log index -> token ok?"""
+def frame_no(n: int) -> bytes:
+    """The n-th request of a history: the same state query with a different tail, so that the device side can tell the first
+    transmission of a request from a retransmission and from other requests."""
+    return rc.frame_build(0x03, _BODY[:-2] + bytes([(n >> 8) & 0xFF, n & 0xFF]), hdr_fill=b"\x8d\x00\x00\x00\x00")
+
+
+def monitor(dev, hs_notes: dict, lifetime, uncompletable: set, calls: dict = None):
+    """Returns None or (bucket, detail).  hs_notes: log index -> token ok?  calls: request frame -> time the caller asked for it."""
     wrap_k = None
     per_conn: dict = {}
     stale = 0
+    calls = calls or {}
+    first_seen: set = set()
     for idx, e in enumerate(dev.log):
         st_ = per_conn.setdefault(e.conn, {"answered": False, "last_counter": None, "opened": None, "last_hs": None, "gens": 0})
         if e.kind == "connect":
@@ -81,6 +90,7 @@ def monitor(dev, hs_notes: dict, lifetime, uncompletable: set):
                 return ("counter/width", f"counter {c} does not fit in two bytes")
             st_["last_counter"] = c
         if e.kind == "hs_req":
+            st_.setdefault("hs_times", []).append(e.t)
             if not hs_notes.get(idx, True):
                 return ("handshake/token", f"handshake request on connection {e.conn} carries a token other than the configured one")
             if lifetime is not None and e.t - st_["opened"] > lifetime + SLACK:
@@ -103,6 +113,18 @@ def monitor(dev, hs_notes: dict, lifetime, uncompletable: set):
                     return ("key/stale", f"connection {e.conn}: data under session key #{e.key_gen} although handshake #{st_['gens'] - 1} completed")
             if st_["last_hs"] is None:
                 return ("before-handshake/data", f"connection {e.conn}: data although no handshake on it could be completed by the client")
+            if e.frame in calls and e.frame not in first_seen:
+                # first transmission of a request: the session must be valid when the data is *sent*, not merely when the call was made.
+                # (a request that goes out at once, or after a handshake of its own on this connection, is covered by the rules below)
+                first_seen.add(e.frame)
+                t_call = calls[e.frame]
+                waited = e.t - t_call
+                own_hs = any(t_call - 1e-9 <= t <= e.t for t in st_.get("hs_times", []))
+                if waited > 0.3 and not own_hs and st_["opened"] is not None and st_["opened"] < t_call:
+                    if e.t - st_["last_hs"] > H12 + 0.01:
+                        return ("expiry/stale-decision", f"a request asked for at t={t_call:.2f} was first sent {waited:.2f} s later, {e.t - st_['last_hs']:.2f} s after the last handshake of its connection (key lifetime 12 h), without a new handshake")
+                    if lifetime is not None and e.t - st_["opened"] > lifetime + 0.01:
+                        return ("expiry/stale-decision", f"a request asked for at t={t_call:.2f} was first sent {waited:.2f} s later on a connection {e.t - st_['opened']:.2f} s old (lifetime {lifetime}), without reconnecting")
             if e.t - st_["last_hs"] > H12 + SLACK:
                 return ("expiry/12h", f"data packet {e.t - st_['last_hs']:.0f} s after the last handshake of its connection")
             if lifetime is not None and e.t - st_["opened"] > lifetime + SLACK:
@@ -131,6 +153,8 @@ def check_history(case: dict):
             k = mode["kind"]
             if k == "silent":
                 return ("drop",)
+            if k == "slow":
+                return ("answer", {"delay": mode.get("slow", 1.5)})
             if k == "error":
                 return ("error",)
             if k == "close":
@@ -168,24 +192,38 @@ def check_history(case: dict):
         lan = ac._lan
         faulted = False
         first = True
+        calls = {}
+        out["calls"] = calls
+
+        def nf():
+            f = frame_no(len(calls) + 1)
+            calls[f] = loop.time()
+            return f
         for ev in events:
             k = ev[0]
             mode.update(kind=None, expect=TOKEN, badkey=False, hs_silent=False, garble=False)
             try:
                 first = False
                 if k == "send":
-                    r = await lan.send(FRAME)
+                    r = await lan.send(nf())
                     if r and faulted:
                         out["ok_after_fault"] = True
+                elif k == "send2":
+                    # two coroutines use the object at once: a request whose answer takes a while, and `gap` s later a second one
+                    mode["kind"], mode["slow"] = "slow", ev[2]
+                    ta = asyncio.ensure_future(lan.send(nf()))
+                    await asyncio.sleep(ev[1])
+                    tb = asyncio.ensure_future(lan.send(nf()))
+                    await asyncio.gather(ta, tb, return_exceptions=True)
                 elif k in ("send_silent", "send_error", "send_close"):
                     mode["kind"] = k.split("_")[1]
                     faulted = True
-                    await lan.send(FRAME)
+                    await lan.send(nf())
                 elif k == "refuse":
                     dev.connect_script.append("refuse")
                     lan._disconnect()
                     faulted = True
-                    await lan.send(FRAME)
+                    await lan.send(nf())
                 elif k == "auth_good":
                     if case["config"].get("hex"):
                         await ac.authenticate(TOKEN.hex(), KEY.hex())      # as the CLI / cloud hand them over
@@ -215,7 +253,7 @@ def check_history(case: dict):
                     # the next handshake reply (if this send needs one) arrives damaged
                     mode["garble"] = True
                     faulted = True
-                    await lan.send(FRAME)
+                    await lan.send(nf())
                 elif k == "sleep_12h":
                     faulted = True
                     await asyncio.sleep(H12 + 60 + ev[1])
@@ -233,7 +271,7 @@ def check_history(case: dict):
                     if ev[2] == "auth":
                         task = asyncio.ensure_future(ac.authenticate(TOKEN, KEY))
                     else:
-                        task = asyncio.ensure_future(lan.send(FRAME))
+                        task = asyncio.ensure_future(lan.send(nf()))
                     await asyncio.sleep(ev[1])
                     task.cancel()
                     try:
@@ -245,7 +283,7 @@ def check_history(case: dict):
             finally:
                 dev.connect_script.clear()
         mode.update(kind=None, expect=TOKEN, badkey=False, hs_silent=False, garble=False)
-        out["monitor"] = monitor(dev, hs_notes, lifetime, uncompletable)
+        out["monitor"] = monitor(dev, hs_notes, lifetime, uncompletable, calls)
         out["n_data"] = sum(1 for e in dev.log if e.kind == "data")
         out["n_conn"] = len(dev.conns)
         out["n_hs"] = sum(1 for e in dev.log if e.kind == "hs_reply")
@@ -285,7 +323,14 @@ def check_long(case: dict):
         wrap_k = None
         for i in range(case["n"]):
             try:
-                p.write(b"\x00" * 14)
+                r_ = p.write(b"\x00" * 14)
+                if hasattr(r_, "send"):
+                    # (should write() ever become a coroutine: drive it; an uncontended one finishes without suspending)
+                    try:
+                        r_.send(None)
+                        return ("long/write-suspends", f"write #{i} did not complete although the transport accepts data")
+                    except StopIteration:
+                        pass
             except Exception as e:
                 return (f"long/raises/{type(e).__name__}", f"write #{i} raised {e!r}")
             d = rc.v3_decode(t.out[-1], KEY)
@@ -375,7 +420,7 @@ def events(max_len: int):
         st.just(["send"]), st.just(["send"]), st.just(["send"]), st.just(["send_silent"]), st.just(["send_error"]), st.just(["send_close"]),
         st.just(["refuse"]), st.just(["auth_good"]), st.just(["auth_bad_token"]), st.just(["auth_bad_key"]), st.just(["auth_silent"]), st.just(["auth_refused"]), st.just(["send_garbled_hs"]),
         st.integers(0, 100).map(lambda x: ["sleep_12h", x]), st.integers(0, 100).map(lambda x: ["sleep_life", x]),
-        st.sampled_from([0.01, 0.5, 3.0, 20.0, 29.0, 31.0, 400.0, 599.0, 3600.0, 25200.0, 43000.0, 43900.0]).map(lambda x: ["sleep", x]), st.just(["reconfigure"]),
+        st.sampled_from([0.01, 0.5, 3.0, 20.0, 29.0, 31.0, 400.0, 599.0, 3600.0, 25200.0, 43000.0, 43900.0]).map(lambda x: ["sleep", x]), st.just(["reconfigure"]), st.tuples(st.sampled_from([0.05, 0.2, 0.6]), st.sampled_from([0.3, 1.5, 1.9])).map(lambda t: ["send2", t[0], t[1]]),
         st.tuples(st.sampled_from(phases), st.sampled_from([0.0, 0.01, -0.01]), st.sampled_from(["send", "send", "auth"])).map(lambda t: ["cancel", round(t[0] + t[1], 3), t[2]]),
     )
     body = st.lists(ev, min_size=1, max_size=max_len)
@@ -416,6 +461,11 @@ def run(ctx) -> None:
             for tz, start in (("CET-1CEST,M3.5.0,M10.5.0/3", [2024, 10, 26, 20, 0]), ("EST5EDT,M3.2.0,M11.1.0", [2024, 11, 3, 2, 0]),
                               ("CET-1CEST,M3.5.0,M10.5.0/3", [2024, 3, 30, 20, 0]), ("AEST-10AEDT,M10.1.0,M4.1.0/3", [2024, 4, 6, 9, 0])):
                 scripts.append({"config": {"lifetime": lifetime, "tz": tz, "start": start}, "events": [["auth_good"], ["send"], ["sleep", 43200.0 + extra - 20.0], ["send"], ["send"]]})
+        # two requests outstanding at once while the connection lifetime / the 12 h key lifetime runs out between them
+        age0 = 1.15       # (authenticate + settle pause + one exchange)
+        limit = lifetime if lifetime else 43200.0
+        for gap, slow in ((0.2, 1.5), (0.5, 1.9), (0.1, 0.9)):
+            scripts.append({"config": {"lifetime": lifetime}, "events": [["auth_good"], ["send"], ["sleep", limit - age0 - slow + 0.45], ["send2", gap, slow], ["send"], ["send"]]})
         # the first exchange after an expiry is an explicit authenticate
         scripts.append({"config": {"lifetime": lifetime}, "events": [["auth_good"], ["send"], ["sleep_life", 0], ["auth_good"], ["send"]]})
         scripts.append({"config": {"lifetime": lifetime}, "events": [["auth_good"], ["send"], ["sleep_12h", 0], ["auth_good"], ["send"]]})
